@@ -74,7 +74,10 @@ relationship count differs from the recorded one (`sourceOk` compares the pair; 
 change in one dimension), and the graph in progress when its whole snapshot (both counts) differs. -/
 theorem source_guards_as_modelled :
     completedSourceGuard = "snapshot.NodeCount != graphEntry.NodeCount || snapshot.EdgeCount != graphEntry.EdgeCount" ∧
-    currentSourceGuard = "checkpoint.Snapshot != currentSnapshot" ∧ snapshotFields = ["NodeCount", "EdgeCount"] := by decide
+    currentSourceGuard = "checkpoint.Snapshot != currentSnapshot" ∧ snapshotFields = ["NodeCount", "EdgeCount"] ∧
+    -- … and the guard is reached for EVERY completed graph (also one that committed no fragment because it was empty):
+    -- the loop ranges over the whole list and nothing leaves an iteration before the guard
+    completedGuardRangeOver = "param:graphEntries" ∧ completedGuardEarlyExits = [] := by decide
 
 /-- The resume-time walk of the output directory skips directories and nothing else: every regular file, whatever
 its name (`*.tmp` included), is checked against the checkpointed set (model: `noUnexpected` looks at every path). -/
